@@ -51,7 +51,9 @@ Obs(s) ==
      tokOwner |-> [i \in Ids |-> IF s.reg[i] = "native" THEN "its" ELSE "none"],
      tokSelfId |-> [i \in Ids |-> IF s.reg[i] = "native" THEN "ok" ELSE "none"],
      \* ids are deterministic, collision-free over the catalogue and depend on the chain name
-     idcheck |-> "ok"]
+     idcheck |-> "ok",
+     \* gateway, gas service, chain name, hub chain / address and token code hash are fixed at construction
+     wiring |-> "ok"]
 
 InstBase(rawPayloads, remoteIds) ==
     [module |-> "ITS", Chains |-> Chains, Accts |-> Accts, Ids |-> Ids, IdOf |-> IdOf, IdCOf |-> IdCOf,
